@@ -5,6 +5,9 @@ import ExponaxModel.Proofs.Differentiability
 import ExponaxModel.Proofs.DifferentiabilityCoef
 import ExponaxModel.Proofs.DifferentiabilityParam
 import ExponaxModel.Proofs.DifferentiabilityVec
+import ExponaxModel.Proofs.DiffTermsExamples
+import ExponaxModel.Proofs.DiffTermsInterface
+import ExponaxModel.Proofs.DiffTermsAdjointConv
 /-
 C07 — steppers are differentiable with correct derivatives — PARTIAL.
 JAX's AD engine and IEEE NaN propagation are not modelled.  What is proved: the per-mode maps of the model are
@@ -104,5 +107,170 @@ theorem C07_guarded_division (d x : ℂ) (c : Cfg ℂ) (order h : ℕ) (f : ℂ)
     HasDerivAt (Diff.guardedDiv d) (Diff.guardedDiv d 1) x ∧ HasDerivAt (Diff.guardedDiv 0) 0 x ∧
     HasDerivAt (poissonStep c order h) (poissonStep c order h 1) f :=
   ⟨Diff.guardedDiv_hasDerivAt d x, Diff.guardedDiv_hasDerivAt_at_zero_divisor x, Diff.poissonStep_hasDerivAt c order h f⟩
+
+
+/-! ### the nonlinear TERMS are smooth, every order, whole states (library `Proofs/DiffTerms*.lean`): `physMap c C C' term` is
+irfftn ∘ term ∘ rfftn on physical states `Fin C → Fin N^D → ℝ`; every model term is `ContDiff ℝ n` for every n with Fréchet
+derivative equal to an explicit JVP in model vocabulary; the regenerated stage formulas of every order are differentiable with the
+chain-rule derivative, whole rollouts are smooth (also the regenerated `GeneralConvectionStepper` wiring); a linear stepper is an
+ℝ-linear map of the whole state, so its Jacobian is the stepper itself; and the transposes that reverse mode must realise -/
+
+open Exponax.DiffTerms Exponax.Nonlin in
+theorem C07_convection_smooth :
+    ∀ (c : Nonlin.Cfg ℂ) (C C' : ℕ) (scale : ℂ) (single conservative : Bool) (n : WithTop ℕ∞),
+      ContDiff ℝ n (physMap c C C' (Nonlin.convection c C scale single conservative)) :=
+  @Exponax.DiffTerms.convection_phys_contDiff
+
+open Exponax.DiffTerms Exponax.Nonlin in
+theorem C07_gradient_norm_smooth :
+    ∀ (c : Nonlin.Cfg ℂ) (C C' : ℕ) (scale : ℂ) (zeroFix : Bool) (n : WithTop ℕ∞),
+      ContDiff ℝ n (physMap c C C' (Nonlin.gradientNorm c C scale zeroFix)) :=
+  @Exponax.DiffTerms.gradientNorm_phys_contDiff
+
+open Exponax.DiffTerms Exponax.Nonlin in
+theorem C07_vorticity_smooth :
+    ∀ (c : Nonlin.Cfg ℂ) (C C' : ℕ) (scale : ℂ) (inj : Option (ℕ × ℂ)) (n : WithTop ℕ∞),
+      ContDiff ℝ n (physMap c C C' (Nonlin.vorticity2d c scale inj)) :=
+  @Exponax.DiffTerms.vorticity2d_phys_contDiff
+
+open Exponax.DiffTerms Exponax.Nonlin in
+theorem C07_general_smooth :
+    ∀ (c : Nonlin.Cfg ℂ) (C C' : ℕ) (s0 s1 s2 : ℂ) (zeroFix : Bool) (n : WithTop ℕ∞),
+      ContDiff ℝ n (physMap c C C' (Nonlin.general c C s0 s1 s2 zeroFix)) :=
+  @Exponax.DiffTerms.general_phys_contDiff
+
+open Exponax.DiffTerms Exponax.Nonlin in
+theorem C07_projected3d_smooth :
+    ∀ (c : Nonlin.Cfg ℂ) (C C' : ℕ) (inj : Option (ℕ × ℂ)) (n : WithTop ℕ∞),
+      ContDiff ℝ n (physMap c C C' (Nonlin.projected3d c inj)) :=
+  @Exponax.DiffTerms.projected3d_phys_contDiff
+
+open Exponax.DiffTerms Exponax.Nonlin in
+theorem C07_cahn_hilliard_smooth :
+    ∀ (c : Nonlin.Cfg ℂ) (C C' : ℕ) (scale : ℂ) (n : WithTop ℕ∞),
+      ContDiff ℝ n (physMap c C C' (Nonlin.cahnHilliard c scale)) :=
+  @Exponax.DiffTerms.cahnHilliard_phys_contDiff
+
+open Exponax.DiffTerms Exponax.Nonlin in
+theorem C07_gray_scott_smooth :
+    ∀ (c : Nonlin.Cfg ℂ) (C C' : ℕ) (feed kill : ℂ) (n : WithTop ℕ∞),
+      ContDiff ℝ n (physMap c C C' (Nonlin.reaction c C (Nonlin.grayScottReact feed kill))) :=
+  @Exponax.DiffTerms.reaction_grayScott_phys_contDiff
+
+open Exponax.DiffTerms Exponax.Nonlin in
+theorem C07_convection_derivative_is_jvp :
+    ∀ (c : Nonlin.Cfg ℂ) (C C' : ℕ) (scale : ℂ) (single conservative : Bool)
+      (u v : Phys C (Nonlin.gridSize c)),
+      (fderiv ℝ (physMap c C C' (Nonlin.convection c C scale single conservative)) u) v =
+        physJvp c C C' (convectionJvp c C scale single conservative) u v :=
+  @Exponax.DiffTerms.convection_phys_fderiv
+
+open Exponax.DiffTerms Exponax.Nonlin in
+theorem C07_convection_jvp_formula :
+    ∀ (c : Nonlin.Cfg ℂ) (C : ℕ) (scale : ℂ) (uh vh : Nonlin.MC ℂ),
+      convectionJvp c C scale true false uh vh =
+        Nonlin.tab2 1 (Nonlin.modes c) fun x h ↦
+          -scale *
+            (Nonlin.nfft c
+                  (Transform.tab (Nonlin.gridSize c) fun j ↦
+                    sumList
+                      (List.map
+                        (fun d ↦
+                          Nonlin.at2 (Nonlin.tabC C fun ch ↦ Nonlin.nifft c (Array.getD uh ch #[])) 0 j *
+                              Nonlin.at2
+                                (Nonlin.tabC c.D fun d ↦
+                                  Nonlin.nifft c
+                                    (Transform.tab (Nonlin.modes c) fun h ↦ Nonlin.deriv c d h * Nonlin.at2 vh 0 h))
+                                d j +
+                            Nonlin.at2 (Nonlin.tabC C fun ch ↦ Nonlin.nifft c (Array.getD vh ch #[])) 0 j *
+                              Nonlin.at2
+                                (Nonlin.tabC c.D fun d ↦
+                                  Nonlin.nifft c
+                                    (Transform.tab (Nonlin.modes c) fun h ↦ Nonlin.deriv c d h * Nonlin.at2 uh 0 h))
+                                d j)
+                        (List.range c.D)))).getD
+              h 0 :=
+  @Exponax.DiffTerms.convectionJvp_single_nc
+
+open Exponax.DiffTerms Exponax.Nonlin in
+theorem C07_order2_state_derivative :
+    ∀ {𝕜 : Type} [inst : NontriviallyNormedField 𝕜] {V : Type} [inst_1 : NormedRing V]
+      [inst_2 : NormedAlgebra 𝕜 V] (E c1 c2 : V) (N : V → V),
+      Differentiable 𝕜 N → ∀ (u : V), fderiv 𝕜 (Gen.Etdrk.E2step E c1 c2 N) u = E2stepV' E c1 c2 N (fderiv 𝕜 N) u :=
+  @Exponax.DiffTerms.E2step_fderiv
+
+open Exponax.DiffTerms Exponax.Nonlin in
+theorem C07_order3_state_derivative :
+    ∀ {𝕜 : Type} [inst : NontriviallyNormedField 𝕜] {V : Type} [inst_1 : NormedRing V]
+      [inst_2 : NormedAlgebra 𝕜 V] (E Eh c1 c2 c3 c4 c5 : V) (N : V → V),
+      Differentiable 𝕜 N →
+        ∀ (u : V), fderiv 𝕜 (Gen.Etdrk.E3step E Eh c1 c2 c3 c4 c5 N) u = Diff.E3stepV' E Eh c1 c2 c3 c4 c5 N (fderiv 𝕜 N) u :=
+  @Exponax.DiffTerms.E3step_fderiv
+
+open Exponax.DiffTerms Exponax.Nonlin in
+theorem C07_rollout_smooth_every_order_every_term :
+    ∀ {term : Nonlin.MC ℂ → Nonlin.MC ℂ} {jvp : Nonlin.MC ℂ → Nonlin.MC ℂ → Nonlin.MC ℂ},
+      TermCalc term jvp →
+        ∀ (c : Nonlin.Cfg ℂ) (C : ℕ) {n : WithTop ℕ∞} (p : ℕ) (dt : ℂ) (lam : Spec C (Nonlin.modes c)) (Mc : ℕ) (r : ℂ)
+          (k : ℕ), ContDiff ℝ n (physStep c C (etdrkStepF p dt lam Mc r (specMap c C C term)))^[k] :=
+  @Exponax.DiffTerms.TermCalc.phys_rollout_contDiff
+
+open Exponax.DiffTerms Exponax.Nonlin in
+theorem C07_generated_convection_stepper_rollout_smooth :
+    ∀ (g : Gen.StepperWiring.GeneralConvectionStepperArgs ℂ) (n : WithTop ℕ∞)
+      (k : ℕ),
+      ContDiff ℝ n fun x ↦
+        res (if g.single_channel = true then 1 else g.num_spatial_dims)
+          (Nonlin.modes (Interface.cfgOf g.num_spatial_dims g.num_points g.domain_extent g.dealiasing_fraction))
+          ((Interface.GeneralConvectionStepper_step g)^[k]
+            (ext (if g.single_channel = true then 1 else g.num_spatial_dims)
+              (Nonlin.modes (Interface.cfgOf g.num_spatial_dims g.num_points g.domain_extent g.dealiasing_fraction)) x)) :=
+  @Exponax.DiffTerms.GeneralConvectionStepper_rollout_contDiff
+
+open Exponax.DiffTerms Exponax.Nonlin in
+theorem C07_linear_jacobian_whole_state :
+    ∀ (c : Nonlin.Cfg ℂ) (C : ℕ) (E : ℕ → ℕ → ℂ) (u : Phys C (Nonlin.gridSize c)),
+      ∃ L,
+        (∀ (v : Phys C (Nonlin.gridSize c)), L v = physMap c C C (linearStepTerm c C E) v) ∧
+          HasFDerivAt (physMap c C C (linearStepTerm c C E)) L u ∧ fderiv ℝ (physMap c C C (linearStepTerm c C E)) u = L :=
+  @Exponax.DiffTerms.linearStep_phys_jacobian
+
+open Exponax.DiffTerms Exponax.Nonlin in
+theorem C07_linear_rollout_jacobian :
+    ∀ (c : Nonlin.Cfg ℂ) (C : ℕ) (E : ℕ → ℕ → ℂ) (k : ℕ)
+      (u v : Phys C (Nonlin.gridSize c)),
+      (fderiv ℝ (physMap c C C (linearStepTerm c C E))^[k] u) v = (physMap c C C (linearStepTerm c C E))^[k] v :=
+  @Exponax.DiffTerms.linearStep_phys_rollout_fderiv
+
+open Exponax.DiffTerms Exponax.Nonlin in
+theorem C07_derivative_adjoint :
+    ∀ (c : Nonlin.Cfg ℂ),
+      0 < c.N →
+        ∀ (s : ℝ),
+          c.s = ↑s →
+            ∀ (order d : ℕ) (f g : Fin (Nonlin.gridSize c) → ℝ),
+              ip g (derivOp c order d f) = (-1) ^ order * ip (derivOp c order d g) f :=
+  @Exponax.DiffTerms.derivativeM_adjoint
+
+open Exponax.DiffTerms Exponax.Nonlin in
+theorem C07_linear_step_adjoint :
+    ∀ (c : Nonlin.Cfg ℂ),
+      0 < c.N →
+        ∀ (C : ℕ) (E : ℕ → ℕ → ℂ) (u w : Phys C (Nonlin.gridSize c)),
+          ipP w (physMap c C C (linearStepTerm c C E) u) =
+            ipP (physMap c C C (linearStepTerm c C fun ch h ↦ (starRingEnd ℂ) (E ch h)) w) u :=
+  @Exponax.DiffTerms.linearStep_adjoint
+
+open Exponax.DiffTerms Exponax.Nonlin in
+theorem C07_convection_reverse_mode :
+    ∀ (c : Nonlin.Cfg ℂ),
+      0 < c.N →
+        ∀ (s : ℝ),
+          c.s = ↑s →
+            ∀ (scale : ℂ) (u v : Phys 1 (Nonlin.gridSize c)) (w : Fin (Nonlin.gridSize c) → ℝ),
+              ip w ((fderiv ℝ (physMap c 1 1 (Nonlin.convection c 1 scale true false)) u) v 0) =
+                ip (convVjp c scale (u 0) w) (v 0) :=
+  @Exponax.DiffTerms.convection_vjp
+
 
 end Exponax
